@@ -156,39 +156,54 @@ Fixpoint writes (p : prog) : list (nat * bool) * outcome :=
 
 (* ---------------------------------------------------------------------------------------------
    generator sessions: _wrap_coroutine_or_generator_function.wrapped_interact, one call per resumption *)
-Inductive gop := GWrite (i : nat) (poison : bool) | GCommit.      (* the generator may call commit() itself *)
+Inductive gop :=
+| GWrite (i : nat) (poison : bool)
+| GFlush          (* flush() or a query that auto-flushes: pending writes go to the database inside the open transaction;
+                     afterwards cache.modified is False but cache.in_transaction is True *)
+| GCommit.        (* the generator may call commit() itself *)
 Inductive gend := GYield | GStop | GRaise (e : exc).
 Definition gstep := (list gop * gend)%type.
 
 Variable must_commit : exc.    (* TransactionError('You need to manually commit() changes before suspending the generator') *)
 
-(* the body of the generator between two suspension points; a failing manual commit() raises inside the generator *)
-Fixpoint gops (ops : list gop) (x : st) : st * outcome :=
+(* core.commit() when the open transaction already holds the flushed writes fl *)
+Definition g_commit (fl : list nat) (x : st) : st * outcome :=
+  if poisoned x then (emit (ECommitFail (length (pend x))) (do_rollback x), Raise cfail)
+  else (mkst (depth x) [] (comm x ++ fl ++ map fst (pend x)) (tr x ++ [ECommit (length (pend x))]), Ok).
+
+(* the body of the generator between two suspension points; fl = writes flushed into the still open transaction.
+   A failing flush / manual commit() raises inside the generator *)
+Fixpoint gops (ops : list gop) (x : st) (fl : list nat) : st * list nat * outcome :=
   match ops with
-  | [] => (x, Ok)
-  | GWrite i b :: r => gops r (mkst (depth x) (pend x ++ [(i, b)]) (comm x) (tr x ++ [ERun i (length (pend x)) (depth x)]))
-  | GCommit :: r => let '(x1, o) := do_commit x in match o with Ok => gops r x1 | Raise e => (x1, Raise e) end
+  | [] => (x, fl, Ok)
+  | GWrite i b :: r => gops r (mkst (depth x) (pend x ++ [(i, b)]) (comm x) (tr x ++ [ERun i (length (pend x)) (depth x)])) fl
+  | GFlush :: r => if poisoned x then (x, fl, Raise cfail)
+                   else gops r (mkst (depth x) [] (comm x) (tr x)) (fl ++ map fst (pend x))
+  | GCommit :: r => let '(x1, o) := g_commit fl x in match o with Ok => gops r x1 [] | Raise e => (x1, [], Raise e) end
   end.
+
+(* `cache.modified or cache.in_transaction`: unflushed writes, or an open transaction holding flushed ones *)
+Definition g_dirty (x : st) (fl : list nat) : bool :=
+  match pend x, fl with [], [] => false | _, _ => true end.
 
 (* the result says whether the generator is finished (Some outcome) or suspended (None) *)
 Definition ginteract (stp : gstep) (x : st) : st * option outcome :=
   let x0 := emit EBegin (set_depth 1 x) in
-  let '(x1, o) := gops (fst stp) x0 in
+  let '(x1, fl, o) := gops (fst stp) x0 [] in
   let fin (y : st) := set_depth 0 y in
   match o with
   | Raise e => (fin (do_rollback x1), Some (Raise e))                 (* except: rollback_and_reraise *)
   | Ok =>
     match snd stp with
     | GRaise e => (fin (do_rollback x1), Some (Raise e))
-    | GStop => let '(x2, oc) := do_commit x1 in                        (* except StopIteration: commit(); release *)
+    | GStop => let '(x2, oc) := g_commit fl x1 in                      (* except StopIteration: commit(); release *)
                match oc with
                | Ok => (fin (do_rollback x2), Some Ok)                 (* raise e -> except: rollback (nothing left) *)
                | Raise e => (fin (do_rollback x2), Some (Raise e))
                end
-    | GYield => match pend x1 with
-                | [] => (fin x1, None)
-                | _ => (fin (do_rollback x1), Some (Raise must_commit))
-                end
+    | GYield => if g_dirty x1 fl
+                then (fin (do_rollback x1), Some (Raise must_commit))  (* refuses to suspend: the open transaction is rolled back *)
+                else (fin x1, None)
     end
   end.
 
